@@ -21,7 +21,6 @@ import (
 
 	"github.com/goblimey/go-ntrip/jsonconfig"
 	rtcmh "github.com/goblimey/go-ntrip/rtcm/handler"
-	"github.com/goblimey/go-ntrip/rtcm/pushback"
 	"github.com/goblimey/go-ntrip/rtcm/utils"
 )
 
@@ -151,27 +150,25 @@ const heading = "RTCM data\n\nNote: times are in UTC.  RINEX format uses GPS tim
 func expected(stream []byte) (text string, fault string) { return expectedAt(t0, stream) }
 
 func expectedAt(start time.Time, stream []byte) (text string, fault string) {
-	ch := make(chan byte, len(stream)+1)
-	for _, b := range stream {
-		ch <- b
-	}
-	close(ch)
+	// segmentation by the independent reference (ref.Segment; C03 ties the
+	// implementation's framing to it), each segment displayed by the library
 	h := rtcmh.New(start, slog.LevelDebug)
-	pb := pushback.New(ch)
 	defer func() {
 		if p := recover(); p != nil {
-			fault = fmt.Sprint("sequential framing panicked: ", p)
+			fault = fmt.Sprint("display of the sequential framing panicked: ", p)
 		}
 	}()
 	text = heading
-	for i := 0; i <= len(stream)+2; i++ {
-		m, err := h.FetchNextMessageFrame(pb)
-		if err != nil && err.Error() == "done" {
-			return
+	for _, sg := range ref.Segment(stream) {
+		var m *rtcmh.Message
+		if sg.Type >= 0 {
+			m, _ = h.GetMessage(sg.Raw)
+		} else {
+			m = rtcmh.NewNonRTCM(sg.Raw)
 		}
 		text += m.String() + "\n"
 	}
-	return text, "no progress"
+	return text, ""
 }
 
 type obsT struct {
@@ -199,9 +196,14 @@ func scenariosC11(tier string) []*mcrt.Scenario {
 		"frame+junk+frame": append(append(append([]byte{}, f...), 0x0A), g...),
 		"1077/8":           ref.TypedFrame(1077, 8, nil),
 		"junk":             []byte("$G\n"),
+		// inputs cut at an arbitrary byte: one stray byte, and 1, 3 and 4 bytes of a frame
+		"frame+1stray":   append(append([]byte{}, f...), 0x0A),
+		"frame+D3":       append(append([]byte{}, f...), 0xD3),
+		"frame+3ofFrame": append(append([]byte{}, f...), g[:3]...),
+		"frame+4ofFrame": append(append([]byte{}, f...), g[:4]...),
 	}
 	var scs []*mcrt.Scenario
-	for _, sn := range []string{"frame", "frame+frame", "frame+junk+frame", "1077/8", "junk"} {
+	for _, sn := range []string{"frame", "frame+frame", "frame+junk+frame", "1077/8", "junk", "frame+1stray", "frame+D3", "frame+3ofFrame", "frame+4ofFrame"} {
 		for _, split := range []bool{false, true} {
 			stream, split := streams[sn], split
 			want, fault := expected(stream)
